@@ -21,6 +21,8 @@ pub fn node_model_line(op: &str) -> Option<String> {
         ["mainloss"] => Some("restart".to_string()),
         // the heartbeat prunes old stubs, which depends on the tracker height: block requests are in the model too
         ["hb"] | ["blk+", _] | ["blkn", _] | ["blk-", _] => Some(op.to_string()),
+        // the same block through the protocol handler's AddBlock arm
+        ["HBLK+", g] => Some(format!("blk+ {}", g)),
         _ => None,
     }
 }
@@ -28,7 +30,7 @@ pub fn node_model_line(op: &str) -> Option<String> {
 /// digest of the node-level state the `nodereq` model tracks; block requests print the tracker height
 /// relative to the height at which the simulator started instead
 pub fn node_digest_for(sim: &Sim, op: &str) -> String {
-    if op.starts_with("blk") {
+    if op.starts_with("blk") || op.starts_with("HBLK") {
         return format!("h={}", sim.node().get_chain_height() as i64 - sim.base_height as i64);
     }
     node_digest(sim)
